@@ -32,7 +32,8 @@ Inductive script :=
 | STimeout (d : option Q) (body : script) (rest : script)       (* async with task_timeout(d) *)
 | SRet (v : Z)
 | SRaise (e : exn)
-| SReraise.
+| SReraise
+| SLogExc (rest : script).      (* log which exception is being handled *)
 
 (* task operands >= 1000 refer to the (n-1000)-th task spawned by this script so far *)
 Definition rv (env : list nat) (t : nat) : nat :=
@@ -48,6 +49,15 @@ Definition resolve (env : list nat) (op : libop) : libop :=
   | _ => op
   end.
 
+Definition exn_code (e : option exn) : Z :=
+  match e with
+  | None => 900
+  | Some ECancelled => 901 | Some (EInterrupt t) => (910 + t)%Z | Some (ETimeoutInt _) => 903
+  | Some ETimeout => 904 | Some (EUser n) => (950 + n)%Z | Some (EBase n) => (960 + n)%Z
+  | Some EAssertion => 907 | Some (ERuntime k) => (980 + k)%Z | Some EValue => 909
+  | Some EInvalidState => 908
+  end.
+
 Inductive compl := CNormal | CRet (v : Z) | CExc (e : exn).
 
 (* CPS denotation; [cur] is the exception being handled (for a bare `raise`) *)
@@ -58,6 +68,7 @@ Fixpoint denote (s : script) (env : list nat) (cur : option exn)
   | SRet v => k env (CRet v)
   | SRaise e => k env (CExc e)
   | SReraise => k env (CExc (match cur with Some e => e | None => ERuntime 0 end))
+  | SLogExc rest => Call (OLog (exn_code cur)) (fun _ => denote rest env cur k)
   | SDo op rest =>
       Call (resolve env op)
            (fun r => match r with
@@ -171,6 +182,10 @@ Definition otask (s : st) (t : task) : obs :=
   OL [ob (fdone s (tfut t)); oon (twaiter t); ob (tmustc t);
       olist oN (sort_nats (tholding t)); oon (twaiting t);
       match tprio t with None => OL [] | Some p => OL [oq p] end].
+Definition otask_e (s : st) (i : nat) (t : task) : obs :=
+  match otask s t with
+  | OL l => OL (l ++ [match tprio t with None => OL [] | Some _ => OL [oq (effective_priority s i)] end])
+  | o => o end.
 
 Definition oqentry (e : entry Q) : obs := OL [oq (epri e); OI (eseq e); OI (eobj e)].
 Definition opq (q : pq Q) : obs := OL [OI (seqn q); olist oqentry (arr q)].
@@ -190,10 +205,12 @@ Definition oevent (e : event) : obs := OL [ob (evalue e); olist oN (ewaiters e)]
 Definition opv (e : entry pv) : obs :=
   let p := epri e in
   OL [OI (pclass p); oq (base p); oq (boost p); OI (ins_at p); OI (eseq e); OI (eobj e)].
+Definition ohandle (s : st) (h : nat) : obs :=
+  OL [oN h; ob (hcancelled (geth s h)); oon (task_of_handle s h)].
 Definition oready (s : st) : obs :=
   match ready s with
-  | RList l => OL [OI 0; olist (fun h => OL [oN h; ob (hcancelled (geth s h))]) l]
-  | RPos p => OL [OI 1; olist (fun h => OL [oN h; ob (hcancelled (geth s h))]) (rq_items (ready s));
+  | RList l => OL [OI 0; olist (ohandle s) l]
+  | RPos p => OL [OI 1; olist (ohandle s) (rq_items (ready s));
                   OL [OI (last_maint p); OI (n_ins p); OI (n_rem p); OI (seqn (pq_ p));
                       olist opv (arr (pq_ p))]]
   end.
@@ -204,7 +221,7 @@ Definition oerr (e : looperr) : obs :=
 Definition ostate (s : st) : obs :=
   OL [oready s;
       olist ofut (futs s);
-      olist (otask s) (tasks s);
+      OL (map (fun it => otask_e s (fst it) (snd it)) (combine (seq 0 (length (tasks s))) (tasks s)));
       olist olock (locks s);
       olist ocond (conds s);
       olist oevent (events s);
